@@ -68,6 +68,23 @@ PRELUDES = {
     "nested-timeout-pcall": "pcall(function() frame:preprocess("
                             "'{{#invoke:bad|loop}}') end)",
     "nested-timeout-template": "frame:expandTemplate{ title = 'tloopinv' }",
+    # a nested invocation that ends in a host-side exception (missing module
+    # or function, its own time limit, a failing callback), then a benign
+    # nested invocation, then BODY: what the first leaves behind decides how
+    # the second is treated (outermost or nested) and what it resets
+    "nested-missing-then-nested": "frame:preprocess('{{#invoke:nomod|f}}'); "
+                                  "frame:preprocess('{{#invoke:echo|f|n}}')",
+    "nested-nofn-then-nested": "frame:preprocess('{{#invoke:bad|nofn}}'); "
+                               "frame:preprocess('{{#invoke:echo|f|n}}')",
+    "nested-error-then-nested": "frame:preprocess('{{#invoke:bad|err}}'); "
+                                "frame:preprocess('{{#invoke:echo|f|n}}')",
+    "nested-timeout-then-nested": "frame:preprocess('{{#invoke:bad|loop}}'); "
+                                  "frame:preprocess('{{#invoke:echo|f|n}}')",
+    "nested-misuse-then-nested": "pcall(function() frame:expandTemplate{"
+                                 "title = 5} end); "
+                                 "frame:preprocess('{{#invoke:echo|f|n}}')",
+    "nested-missing-twice": "frame:preprocess('{{#invoke:nomod|f}}"
+                            "{{#invoke:nomod2|g}}{{#invoke:echo|f|n}}')",
 }
 
 
